@@ -308,7 +308,8 @@ func runC13(w *mon.W) {
 		}
 		r := w.Rand(id)
 		big := k%4 == 0
-		list := randFastaList(r, big)
+		want := randFastaList(r, big)
+		list := append([]fasta.Fasta(nil), want...) // what the library is handed; results are judged against want
 		for _, f := range list {
 			if len(f.Sequence) >= 65536 {
 				w.Add("sequences_of_64KiB_or_more", 1)
@@ -346,7 +347,7 @@ func runC13(w *mon.W) {
 			got = fasta.Parse(bytes.NewReader(text))
 		}
 		w.Add("lists_round_tripped", 1)
-		if d := diffFasta(list, got); d != "" {
+		if d := diffFasta(want, got); d != "" {
 			w.Violation(id, fmt.Sprintf("%s: %s", how, d), rep)
 		}
 		if c13PrevText != nil {
@@ -382,7 +383,7 @@ func runC13(w *mon.W) {
 				g2 = fasta.Parse(strings.NewReader(lay))
 			}
 			w.Add("relayouts_parsed", 1)
-			if d := diffFasta(list, g2); d != "" {
+			if d := diffFasta(want, g2); d != "" {
 				w.Violation(id, fmt.Sprintf("re-layout (wrap width %d, blank lines %v, ';' comments %v, CRLF %v, gzip %v) changes the parse result: %s", width, blanks, comments, crlf, gz, d),
 					map[string]any{"records": len(list), "text_head": clip(lay, 2000)})
 				break
@@ -452,7 +453,8 @@ func runC13(w *mon.W) {
 			continue
 		}
 		r := w.Rand(id)
-		list := randFastaList(r, k%6 == 0)
+		want := randFastaList(r, k%6 == 0)
+		list := append([]fasta.Fasta(nil), want...)
 		text := fasta.Build(list)
 		if k%3 == 0 {
 			text = []byte(layoutFasta(r, list, 1+r.Intn(120), true, true, r.Intn(2) == 0))
@@ -484,7 +486,7 @@ func runC13(w *mon.W) {
 		case res.neverClosed:
 			w.Violation(id, fmt.Sprintf("ParseConcurrent returned without closing its channel (capacity %d, %d of %d records received)", capacity, len(res.recs), len(list)), rep)
 		default:
-			if d := diffFasta(list, res.recs); d != "" {
+			if d := diffFasta(want, res.recs); d != "" {
 				w.Violation(id, fmt.Sprintf("records received from ParseConcurrent (capacity %d, stall pattern %d, chunk %d): %s", capacity, stall, dribble, d), rep)
 			}
 		}
@@ -498,7 +500,8 @@ func runC13(w *mon.W) {
 			continue
 		}
 		r := w.Rand(id)
-		list := randFastaList(r, false)
+		want := randFastaList(r, false)
+		list := append([]fasta.Fasta(nil), want...)
 		w.Begin(id, fmt.Sprintf("%d records through ReadConcurrent/ReadGzConcurrent", len(list)))
 		ch := make(chan fasta.Fasta, []int{0, 3, 1000}[k%3])
 		if k%2 == 0 {
@@ -528,7 +531,7 @@ func runC13(w *mon.W) {
 		}
 		w.Eval(true, mon.Hash64(id))
 		w.Add("path_based_streaming_runs", 1)
-		if d := diffFasta(list, got); d != "" {
+		if d := diffFasta(want, got); d != "" {
 			w.Violation(id, "records received from ReadConcurrent/ReadGzConcurrent: "+d, nil)
 		}
 		w.End()
